@@ -461,6 +461,10 @@ impl Corpus {
     fn size(&self) -> usize {
         self.fixed.len() + self.pool
     }
+    /// Generated texts come in pairs: an odd pool index is the *sibling* of the even one before
+    /// it — same length, minimally different content (one letter bumped, or two adjacent
+    /// characters swapped so that even the multiset of bytes is equal). A memo keyed on anything
+    /// weaker than the whole text confuses the two.
     fn get(&mut self, id: usize) -> (Arc<str>, &'static str, usize) {
         if id < self.fixed.len() {
             return (self.fixed[id].1.clone(), "repo-file", 0);
@@ -468,12 +472,38 @@ impl Corpus {
         if let Some(x) = self.cache.get(&id) {
             return x.clone();
         }
-        let mut rng = Rng::derive(self.seed, &[ENGINE_A, 0x7E57, id as u64]);
-        let t = texts::ambient_text(&mut rng);
-        let v = (Arc::from(t.text), t.category, t.planted);
+        let k = id - self.fixed.len();
+        let v = if k % 2 == 1 {
+            let (t, cat, planted) = self.get(id - 1);
+            let mut rng = Rng::derive(self.seed, &[ENGINE_A, 0x51B1, id as u64]);
+            (Arc::from(sibling(&t, &mut rng)), cat, planted)
+        } else {
+            let mut rng = Rng::derive(self.seed, &[ENGINE_A, 0x7E57, id as u64]);
+            let t = texts::ambient_text(&mut rng);
+            (Arc::from(t.text), t.category, t.planted)
+        };
         self.cache.insert(id, v.clone());
         v
     }
+}
+
+fn sibling(text: &str, rng: &mut Rng) -> String {
+    let mut b: Vec<u8> = text.as_bytes().to_vec();
+    let letters: Vec<usize> = (0..b.len()).filter(|i| b[*i].is_ascii_lowercase()).collect();
+    let swaps: Vec<usize> = (0..b.len().saturating_sub(1))
+        .filter(|i| b[*i].is_ascii_alphanumeric() && b[*i + 1].is_ascii_alphanumeric() && b[*i] != b[*i + 1])
+        .collect();
+    if rng.chance(1, 2) && !swaps.is_empty() {
+        let i = swaps[rng.below(swaps.len())];
+        b.swap(i, i + 1);
+    } else if !letters.is_empty() {
+        let i = letters[rng.below(letters.len())];
+        b[i] = if b[i] == b'z' { b'a' } else { b[i] + 1 };
+    } else if !swaps.is_empty() {
+        let i = swaps[rng.below(swaps.len())];
+        b.swap(i, i + 1);
+    }
+    String::from_utf8(b).unwrap_or_else(|_| text.to_string())
 }
 
 // ------------------------------------------------------------------- shrink
@@ -773,7 +803,12 @@ fn main() {
                 for _ in 0..n_texts {
                     let id = if rng.chance(1, 4) { rng.below(nfixed) } else { nfixed + pool_base + rng.below(pool) };
                     ids.push(id);
+                    if id >= nfixed && ids.len() < 4 && rng.chance(1, 3) {
+                        // the text's sibling in the same run
+                        ids.push(nfixed + ((id - nfixed) ^ 1));
+                    }
                 }
+                let n_texts = ids.len();
                 let mut texts: Vec<Arc<str>> = vec![];
                 for id in &ids {
                     let (t, cat, planted) = corpus.get(*id);
